@@ -194,6 +194,9 @@ func runXPropWith(t *testing.T, xp xProp, post func(rt *rapid.T, k *xCase)) {
 		if k.Text != "" {
 			c.Class("respelled-text")
 		}
+		if k.WideSum {
+			c.Class("wide-64-bit-checksum-values")
+		}
 		c.EvalN(len(ok) * len(k.Msgs))
 		for _, l := range ok {
 			c.Class("lang:" + l)
